@@ -375,6 +375,25 @@ CLAIMED["C18"]["text"] += (
     "Lean handle model; theorems SfProps/C18Stale.lean `calc_ignores_peak_chunk`, `stale_peak_by_overwrite`.")
 
 
+CLAIMED["C08"]["text"] += (
+    " Round 5: read/write histories on files WITH CONTENT BEHIND THE AUDIO (pad byte, LIST / INFO, CAF info, PEAK tailer; vlib/rdwrtail.py) with sf_read_raw / sf_write_raw as first-class "
+    "operations and each of the 9 read / 9 write entry points right after every other kind of operation, judged by Sf.Abs.check (theorems SfProps/C08Raw.lean: rawRead_keeps_write_side, "
+    "readLike_keeps_write_side, write_rawRead_write, rawWrite_meaning, update_keeps_frames / update_old_rule_inflates for the header-update length rule of SfModel/RdwrTail.lean); queries between "
+    "the calls of a read/write handle (vlib/querycamp.py).")
+CLAIMED["C11"]["text"] += (
+    " Round 5: crash-point images of READ/WRITE sessions on re-opened files (with and without chunks behind the audio): every write entry point across the old end of the audio, "
+    "SFC_UPDATE_HEADER_NOW / auto update, each image opened and read back, judged by Sf.Abs.check on `history up to the image + image reader` (rdwrtail.run_c11; SfProps/C11Rdwr.lean "
+    "image_open_meaning / image_read_meaning, C08Raw.stale_mark_loses_frames).")
+CLAIMED["C13"]["text"] += (
+    " Round 5: the late sf_set_chunk is exercised after audio written through EVERY write entry point (8 typed, raw; vlib/lateset.py), the model has the entry point as a parameter "
+    "(Sf.ChunkW.writeBy) and SfProps/C13Late.lean proves the refusal for every entry point and every history of write calls.")
+CLAIMED["C12"]["text"] += " Round 5: the have_written-guarded setters after audio written through every write entry point (lateset.run_c12; audio and frame count judged by Sf.Abs.check)."
+CLAIMED["C06"]["text"] += (
+    " Round 5: interleaved non-audio calls (chunk iteration / sf_get_chunk_data incl. zero-length and last chunks, string and metadata getters, SFC_CALC_* / SFC_GET_*, sf_current_byterate) "
+    "between two reads without a seek, on every container (custom chunks and strings in WAV / WAVEX / RF64 / AIFF / CAF, every encoding): vlib/querycamp.py; the query clause of the abstract model "
+    "(SfModel/AbsQuery.lean) and SfProps/C06Query.lean (accepts_strip_queries, reads_with_queries_concat, get_chunk_data_restores_position).")
+CLAIMED["C05"]["text"] += " Round 5: the count / position / end-of-data clauses of reads with non-audio calls in between (vlib/querycamp.py, SfProps/C06Query.lean)."
+
 def main():
     checks = []
     for p in PROPS:
